@@ -110,12 +110,13 @@ def find_producers(proj: Project):
     return out
 
 
-KNOWN_PRODUCERS = {
-    "corankco.consensus:Consensus.__init__": "default -1 (S1)",
-    "corankco.consensus:Consensus.__calculate_score": "lazy computation (S1)",
-    "corankco.algorithms.bioconsert.bioconsert:BioConsert.compute_consensus_rankings": "minimum of final scores (S2,S3,S6)",
-    "corankco.algorithms.pickaperm.pickaperm:PickAPerm.compute_consensus_rankings": "running minimum (S5)",
-    "corankco.algorithms.exact.exactalgorithmpulp:ExactAlgorithmPulp.compute_consensus_rankings": "solver objective (S4,S4b)",
+# modules whose stores under KEMENY_SCORE are decided by the other rules of this property (whichever function of the
+# module performs the store - a method split or a helper keeps the producer inside its module)
+KNOWN_PRODUCER_MODULES = {
+    "corankco.consensus": "default -1 / lazy computation (S1)",
+    "corankco.algorithms.bioconsert.bioconsert": "minimum of final scores (S2, S3, S6)",
+    "corankco.algorithms.pickaperm.pickaperm": "running minimum (S5)",
+    "corankco.algorithms.exact.exactalgorithmpulp": "solver objective (S4, S4b)",
 }
 
 
@@ -135,8 +136,9 @@ def run(ctx) -> Result:
     prods = find_producers(proj)
     for f, node, val in prods:
         res.saw(f)
-        if f.qualname in KNOWN_PRODUCERS:
-            res.ok("S0", f"{f.short}:KEMENY_SCORE", f.loc(node), KNOWN_PRODUCERS[f.qualname], nontrivial=False)
+        if f.module.name in KNOWN_PRODUCER_MODULES:
+            res.ok("S0", f"{f.module.name.split('.')[-1]}:KEMENY_SCORE:{len([o for o in res.obligations if o.rule == 'S0'])}",
+                   f.loc(node), KNOWN_PRODUCER_MODULES[f.module.name], nontrivial=False)
         else:
             ok = _is_scoring_call(val, f)
             res.check(ok, "S0", f"{f.short}:KEMENY_SCORE", f.loc(node),
@@ -181,95 +183,78 @@ def _is_scoring_call(val: ast.AST, f) -> bool:
 
 # ---------------------------------------------------------------------------------------------------------------
 def _check_lazy(res: Result, proj: Project):
+    """The lazy score path on real Consensus / Dataset / Ranking / ScoringScheme instances; only the scoring routine is
+    intercepted (it records what it is asked and answers 41.5)."""
+    from .datamodel import World
     cls = proj.cls("corankco.consensus", "Consensus")
     init = proj.method(cls, "__init__")
-    calc = proj.method(cls, "__calculate_score")
     ks = proj.method(cls, "kemeny_score")
     desc = proj.method(cls, "description")
-    res.saw(init, calc, ks, desc)
-    KEY = "ConsensusFeature.KEMENY_SCORE"
+    res.saw(init, ks, desc)
+    w = World(proj)
+    w.rt.funcs["print"] = lambda ev, call: None
+    K = proj.cls("corankco.kemeny_score_computation", "KemenyComputingFactory")
+    gks = proj.method(K, "get_kemeny_score")
+    SS = proj.cls("corankco.scoringscheme", "ScoringScheme")
+    CF = proj.cls("corankco.consensus", "ConsensusFeature")
 
-    def scenario(att, dataset, scheme, via):
+    def feature(name):
+        val = proj.lookup_class_attr(CF, name)
+        return w.rt.enum_member(CF, name, w.rt.evaluator(CF.module).ev(val) if val is not None else name)
+
+    def score_of(cons):
+        for k, v in (cons.attrs.get("_att") or {}).items():
+            if getattr(k, "member", "") == "KEMENY_SCORE":
+                return v
+        return "<absent>"
+
+    def scenario(att_in, via):
         log = []
 
-        def kcf(ev, call):
-            a = [ev.ev(x) for x in call.args]
-            o = Obj("KCF", {"scheme": a[0] if a else None})
-            o.methods["get_kemeny_score"] = lambda ev2, c2, a2, k2: (log.append((o.attrs["scheme"], a2)) or "COMPUTED")
-            return o
-        rk = [Obj("R0", {"domain": set()}), Obj("R1", {"domain": set()})]
-        ds = None
-        if dataset:
-            ds = Obj("DS", {"universe": {"a", "b"}})
-        sch = Sym("SCHEME") if scheme else None
-        me = Obj("SELF")
-        env = {"self": me}
-        evl = Evaluator(env, funcs={"KemenyComputingFactory": kcf})
-        evl.attr_fallback = lambda d: d if d.startswith("ConsensusFeature.") else None
-
-        # Obj attribute reads go through env dotted names first; route self.<x> to the object's attrs
-        def self_attr(d):
-            if d.startswith("ConsensusFeature."):
-                return d
-            return None
-        evl.attr_fallback = self_attr
-        # run __init__ with empty rankings list semantics: rankings objects are not iterated when list is empty,
-        # so evaluate with the two abstract rankings but neutralise the position loop through Obj iteration support
-        me.attrs["nb_elements"] = 2
-        me.attrs["associated_dataset"] = ds
+        def scorer(args, kw):
+            log.append(list(args))
+            return 41.5
+        w.rt.overrides[gks.qualname] = scorer
+        ds = w.dataset([[{1}, {2}], [{2}, {1}], [{1, 2}]])
+        sch = w.rt.new(SS, [[[0., 1., 1., 0., 1., 1.], [1., 1., 0., 1., 1., 0.]]], {})
+        r0, r1 = w.ranking([{1}, {2}]), w.ranking([{2}, {1}])
+        att = None if att_in is None else {feature(k): v for k, v in att_in.items()}
         try:
-            evl.call_user(init.node, [me, [], ds, sch, att])
+            cons = w.rt.new(cls, [[r0, r1], ds, sch, att], {})
+            after_init = score_of(cons)
+            ret = w.call(cons, via)
         except Unsupported as exc:
-            raise AnalysisError(f"{init.qualname}: unsupported construct line {getattr(exc.node, 'lineno', '?')}: {exc}")
-        stored = evl.env  # child env is not visible; use effects instead
-        eff = {e.target: e.value for e in evl.effects if e.op == "="}
-        att_obj = eff.get(("self", "._att"))
-        if att_obj is None:
-            att_obj = att
-        me.attrs["_att"] = att_obj
-        me.attrs["_dataset"] = eff.get(("self", "._dataset"))
-        me.attrs["_scoring_scheme"] = eff.get(("self", "._scoring_scheme"))
-        me.attrs["_consensus_rankings"] = rk
-        me.attrs["consensus_rankings"] = rk
-        me.attrs["features"] = att_obj
-        after_init = dict(att_obj) if isinstance(att_obj, dict) else None
-        evl2 = Evaluator({"self": me}, funcs={"KemenyComputingFactory": kcf})
-        evl2.attr_fallback = self_attr
-        evl2.funcs["self.__calculate_score"] = lambda ev, call: ev.call_user(calc.node, [me])
-        evl2.funcs["self._Consensus__calculate_score"] = evl2.funcs["self.__calculate_score"]
-        evl2.funcs[".join"] = lambda ev, call: "TEXT"
-        target = ks if via == "kemeny_score" else desc
-        try:
-            ret = evl2.call_user(target.node, [me])
-        except Unsupported as exc:
-            raise AnalysisError(f"{target.qualname}: unsupported construct line {getattr(exc.node, 'lineno', '?')}: {exc}")
-        return after_init, att_obj, ret, log, me
+            raise AnalysisError(f"Consensus: unsupported construct line {getattr(exc.node, 'lineno', '?')}: {exc}")
+        finally:
+            w.rt.overrides.pop(gks.qualname, None)
+        return after_init, score_of(cons), ret, log, (r0, ds, sch)
 
     # scenario A: nothing supplied, dataset + scheme present
-    a0, att, ret, log, me = scenario(None, True, True, "kemeny_score")
-    good = a0 is not None and a0.get(KEY) == -1 and att.get(KEY) == "COMPUTED" and ret == "COMPUTED" and len(log) == 1 \
-        and log[0][0] == Sym("SCHEME") and len(log[0][1]) == 2 and getattr(log[0][1][0], "name", None) == "R0" \
-        and getattr(log[0][1][1], "name", None) == "DS"
-    res.check(good, "S1", "Consensus.kemeny_score:computed-on-demand", proj.method(me_cls(proj), "kemeny_score").loc(),
+    a0, now, ret, log, (r0, ds, sch) = scenario(None, "kemeny_score")
+    good = a0 == -1 and now == 41.5 and ret == 41.5 and len(log) == 1 and len(log[0]) >= 3 \
+        and log[0][0].attrs.get("_KemenyComputingFactory__scoring_scheme", log[0][0].attrs.get("__scoring_scheme")) is sch \
+        and log[0][1] is r0 and log[0][2] is ds
+    res.check(good, "S1", "Consensus.kemeny_score:computed-on-demand", ks.loc(),
               ok_detail="default -1, then get_kemeny_score(consensus_rankings[0], own dataset) under the own scheme",
-              bad_detail=f"after __init__ {a0!r}; after access {att!r}; scoring calls {log!r}")
+              bad_detail=f"after __init__ {a0!r}; after access {now!r} (returned {ret!r}); {len(log)} scoring call(s)"
+                         + ("" if not log else "; first one not on (first ranking, own dataset) under the own scheme"))
     # scenario B: score supplied by the algorithm: kept
-    a0, att, ret, log, me = scenario({KEY: 12.5}, True, True, "kemeny_score")
-    res.check(att.get(KEY) == 12.5 and ret == 12.5 and not log, "S1", "Consensus.kemeny_score:supplied-kept",
-              init.loc(), ok_detail="a supplied score is returned unchanged, nothing recomputed",
-              bad_detail=f"supplied 12.5 -> attribute {att.get(KEY)!r}, returned {ret!r}, scoring calls {len(log)}")
-    # scenario C: computed score is cached (second access does not recompute) -- supplied == computed path
-    a0, att, ret, log, me = scenario({KEY: 0.0}, True, True, "kemeny_score")
+    a0, now, ret, log, _ = scenario({"KEMENY_SCORE": 12.5}, "kemeny_score")
+    res.check(now == 12.5 and ret == 12.5 and not log, "S1", "Consensus.kemeny_score:supplied-kept", init.loc(),
+              ok_detail="a supplied score is returned unchanged, nothing recomputed",
+              bad_detail=f"supplied 12.5 -> attribute {now!r}, returned {ret!r}, scoring calls {len(log)}")
+    # scenario C: a supplied 0 is a score
+    a0, now, ret, log, _ = scenario({"KEMENY_SCORE": 0.0}, "kemeny_score")
     res.check(ret == 0.0 and not log, "S1", "Consensus.kemeny_score:zero-is-a-score", init.loc(),
               ok_detail="a score of 0 is a score (not recomputed)", bad_detail=f"score 0.0 -> {ret!r}, calls {len(log)}")
     # scenario D: description() also triggers the computation
-    a0, att, ret, log, me = scenario(None, True, True, "description")
-    res.check(att.get(KEY) == "COMPUTED" and len(log) == 1, "S1", "Consensus.description:computes-score", desc.loc(),
+    a0, now, ret, log, _ = scenario(None, "description")
+    res.check(now == 41.5 and len(log) == 1, "S1", "Consensus.description:computes-score", desc.loc(),
               ok_detail="description() computes the missing score first",
-              bad_detail=f"after description(): {att!r}, scoring calls {len(log)}")
+              bad_detail=f"after description(): score {now!r}, scoring calls {len(log)}")
     # scenario E: other features supplied, score missing
-    a0, att, ret, log, me = scenario({"ConsensusFeature.ASSOCIATED_ALGORITHM": "x"}, True, True, "kemeny_score")
-    res.check(a0.get(KEY) == -1 and ret == "COMPUTED", "S1", "Consensus.kemeny_score:other-features-only", init.loc(),
+    a0, now, ret, log, _ = scenario({"ASSOCIATED_ALGORITHM": "x"}, "kemeny_score")
+    res.check(a0 == -1 and ret == 41.5, "S1", "Consensus.kemeny_score:other-features-only", init.loc(),
               ok_detail="score defaults to -1 when only other features are supplied, then computed",
               bad_detail=f"after __init__ {a0!r}, returned {ret!r}")
 
